@@ -17,6 +17,7 @@ theorem pin_unshare : Gen.C01.pin_adt_nodeContext_unshare = "240570efcc03624d" :
 theorem pin_appendDisjunct : Gen.C01.pin_adt_appendDisjunct = "8b8814151ffd0e28" := by decide
 theorem pin_updateArcType : Gen.C01.pin_adt_Vertex_updateArcType = "f682055c0ea63d3e" := by decide
 theorem pin_addResolver : Gen.C01.pin_adt_nodeContext_addResolver = "790fb6e8c931de77" := by decide
+theorem pin_processListLit : Gen.C01.pin_adt_processListLit = "bd2dae69b1f2c488" := by decide
 theorem pin_checkTypos : Gen.C01.pin_adt_nodeContext_checkTypos = "2d2e6da9e8a67d4f" := by decide
 
 end CueVerif.Bridge.C01
